@@ -751,6 +751,12 @@ func EvalFunction(env *Zlisp, name string, args []Sexp) (Sexp, error) {
 		*/
 		env.datastack.TruncateToSize(startingDataStackSize)
 	}
+	// the generated function returned to the instruction after the
+	// saved pc; put the program counter back where it was, so that a
+	// host calling EvalFunction on an interpreter at rest can go on
+	// evaluating afterwards.
+	env.curfunc = callState.curfunc
+	env.pc = callState.pc
 	if env.datastack.Size() < startingDataStackSize {
 		P("about panic, since env.datastack.Size() < startingDataStackSize, here is env dump:")
 		env.DumpEnvironment()
